@@ -15,12 +15,14 @@ from __future__ import annotations
 import ast
 from typing import Any
 
-from ..engine.cfg import CFG
+from ..engine.normalize import inline_helpers, positional
 from ..engine.report import AnalysisError, Run
 from ..engine.resolver import FuncInfo, Program, body_walk, walk_no_nested
-from ..engine.util import (
-    canon_total, find_calls, method_call, node_calls, node_has_call, node_writes,
-    nodes_with_call, u,
+from ..engine.sympath import Path
+from ..engine.util import find_calls, method_call, u
+from ._c09_util import (
+    MutationSummary, decided, entails_le, entails_lt, first_call, func_params, index_of, loop_paths,
+    lower_bounded, ordered_paths, self_attr_root, subscripts_of, upper_bounded,
 )
 
 BUF = "timeseries._ringbuffer.buffer"
@@ -52,12 +54,13 @@ def join(a: str, b: str) -> str:
 class Typestate:
     """Flow-sensitive qualifier inference over one method of OrderedRingBuffer."""
 
-    def __init__(self, run: Run, fn: FuncInfo, aligned_params: set[str], raw_params: set[str]) -> None:
+    def __init__(self, run: Run, fn: FuncInfo, aligned_params: set[str], raw_params: set[str],
+                 scan: bool = True, ret_qual: Any = None) -> None:
         self.run = run
         self.fn = fn
         self.sinks: list[tuple[str, ast.AST, str, str]] = []  # (what, node, qualifier, expr)
         self.returns: list[tuple[ast.AST, str]] = []
-        self.index_vars: set[str] = set()
+        self.ret_qual = ret_qual  # qualifier of the value returned by a private method of the class
         env: dict[str, str] = {}
         for a in fn.node.args.posonlyargs + fn.node.args.args + fn.node.args.kwonlyargs:
             if a.annotation is not None and u(a.annotation) == "int":
@@ -66,11 +69,8 @@ class Typestate:
             env[p] = A
         for p in raw_params:
             env[p] = R
-        # variables whose slot index is computed in this function
-        for call in find_calls(fn.node, lambda c: method_call(c, "self", "to_internal_index")):
-            if call.args and isinstance(call.args[0], ast.Name):
-                self.index_vars.add(call.args[0].id)
-        self.block(fn.node.body, env)
+        if scan:
+            self.block(fn.node.body, env)
 
     # ------------------------------------------------------------ expressions
     def q(self, e: ast.AST | None, env: dict[str, str]) -> str:
@@ -101,6 +101,9 @@ class Typestate:
             if isinstance(e.func, ast.Attribute) and u(e.func.value).startswith("self") \
                     and e.func.attr in ALIGNED_CALLS:
                 return A
+            if isinstance(e.func, ast.Attribute) and u(e.func.value) == "self" and self.ret_qual is not None \
+                    and e.func.attr.startswith("_") and not e.func.attr.startswith("__"):
+                return self.ret_qual(e.func.attr)
             name = u(e.func)
             if name in ("max", "min"):
                 args = list(e.args)
@@ -168,19 +171,15 @@ class Typestate:
                             self.sinks.append(("GAP", n, self.q(vals[k], env), f"Gap({k}={u(vals[k])})"))
                 elif isinstance(n.func, ast.Attribute) and u(n.func.value) == "self" \
                         and n.func.attr in PRIVATE_ALIGNED:
+                    if any(isinstance(a, ast.Starred) for a in n.args) or any(k.arg is None for k in n.keywords):
+                        raise AnalysisError(f"{self.fn.qual}: cannot bind the arguments of {u(n)[:80]}")
+                    bound = positional(n, PRIVATE_PARAMS[n.func.attr])
                     for idx in PRIVATE_ALIGNED[n.func.attr]:
-                        if idx < len(n.args):
-                            arg = n.args[idx]
+                        arg = bound.get(PRIVATE_PARAMS[n.func.attr][idx])
+                        if arg is not None:
                             self.sinks.append((
                                 "ARG", n, self.q(arg, env),
                                 f"self.{n.func.attr}(... {u(arg)} ...) [parameter {idx}]"))
-            elif isinstance(n, ast.Compare) and len(n.ops) == 1:
-                l, r = n.left, n.comparators[0]
-                if isinstance(l, ast.Name) and isinstance(r, ast.Name) \
-                        and {l.id, r.id} <= self.index_vars and l.id != r.id:
-                    ql, qr = self.q(l, env), self.q(r, env)
-                    self.sinks.append(("CMP", n, A if (ql == A and qr == A) else join(join(ql, qr), R if R in (ql, qr) else Q),
-                                       f"{u(n)} [{l.id}: {ql}, {r.id}: {qr}]"))
 
     def store(self, tgt: ast.AST, val: str, env: dict[str, str], node: ast.AST) -> None:
         if isinstance(tgt, ast.Name):
@@ -279,6 +278,7 @@ def _terminates(stmts: list[ast.stmt]) -> bool:
 
 # private methods doing slot arithmetic on these positional parameters (index after self)
 PRIVATE_ALIGNED: dict[str, list[int]] = {}
+PRIVATE_PARAMS: dict[str, list[str]] = {}   # parameter names (after self) of those methods
 
 
 def _datetime_params(fn: FuncInfo) -> list[tuple[int, str]]:
@@ -293,13 +293,36 @@ def _datetime_params(fn: FuncInfo) -> list[tuple[int, str]]:
 def check_norm(run: Run, prog: Program) -> None:
     cls = prog.cls(f"{BUF}:OrderedRingBuffer")
     PRIVATE_ALIGNED.clear()
+    PRIVATE_PARAMS.clear()
     for name, m in cls.methods.items():
         if name.startswith("_") and not name.startswith("__"):
             idx = [i for i, _ in _datetime_params(m)]
             if idx:
                 PRIVATE_ALIGNED[name] = idx
+                PRIVATE_PARAMS[name] = func_params(m.node)
     if not {"_fill_gaps", "_update_gaps", "_remove_gap"} <= set(PRIVATE_ALIGNED):
         raise AnalysisError(f"C09.NORM: private slot-arithmetic methods moved: {sorted(PRIVATE_ALIGNED)}")
+
+    memo: dict[str, str] = {}
+    stack: list[str] = []
+
+    def ret_qual(name: str) -> str:
+        """Qualifier of what a private method returns, its datetime parameters being aligned (the ARG
+        obligation at every call site)."""
+        if name in memo:
+            return memo[name]
+        callee = prog.resolve_method(cls, name)
+        if callee is None or name in stack:
+            return Q
+        stack.append(name)
+        sub = Typestate(run, callee, {p for _, p in _datetime_params(callee)}, set(), ret_qual=ret_qual)
+        stack.pop()
+        out = N
+        for _node, ql in sub.returns:
+            out = join(out, ql)
+        memo[name] = out if sub.returns else Q
+        return memo[name]
+
     n_sinks = 0
     for name, m in cls.methods.items():
         if name in ("normalize_timestamp", "__init__"):
@@ -307,18 +330,16 @@ def check_norm(run: Run, prog: Program) -> None:
         run.analysed(m.qual)
         dps = _datetime_params(m)
         private = name in PRIVATE_ALIGNED
-        ts = Typestate(run, m,
+        # simple private helpers are read at their call site (with the actual arguments)
+        spliced = FuncInfo(m.name, m.module, inline_helpers(prog, m), m.cls, m.outer)
+        ts = Typestate(run, spliced,
                        aligned_params={p for _, p in dps} if private else set(),
-                       raw_params=set() if private else {p for _, p in dps})
+                       raw_params=set() if private else {p for _, p in dps}, ret_qual=ret_qual)
         for what, node, qual, text in ts.sinks:
             n_sinks += 1
             rule = "C09.NORM"
             inst = f"{m.qual}: {what} {text}"
-            if what == "CMP":
-                msg = ("the emptiness/ordering guard before the slot-index computation compares "
-                       "un-normalised datetimes: two times inside the same slot pass `start < end` "
-                       "yet map to the same slot index, and the whole buffer is returned")
-            elif what == "ARG":
+            if what == "ARG":
                 msg = ("a datetime that is not provably on the slot grid is passed to a private "
                        "method doing floor-division slot arithmetic on it (results shift by one slot)")
             elif what == "FIELD":
@@ -334,381 +355,388 @@ def check_norm(run: Run, prog: Program) -> None:
                 run.check(qual in (A, N), "C09.NORM", m.qual, node,
                           f"{name} is relied upon as an aligned source but returns a value of "
                           f"qualifier {qual}", node=node, file=m.file)
-    # normalize_timestamp defines the grid: align + n * period
+    # normalize_timestamp defines the grid: align + n * period (on every returning path)
     nt = cls.methods.get("normalize_timestamp")
     if nt is None:
         raise AnalysisError("normalize_timestamp not found")
     run.analysed(nt.qual)
-    ts = Typestate(run, nt, set(), {p for _, p in _datetime_params(nt)})
-    # num_samples comes from divmod(...): integers
-    ok = False
-    for node, _q in ts.returns:
-        val = node.value  # type: ignore[attr-defined]
-        expr = val
-        if isinstance(val, ast.Name):
-            for s in body_walk(nt.node):
-                if isinstance(s, ast.Assign) and u(s.targets[0]) == val.id:
-                    expr = s.value
-        if isinstance(expr, ast.BinOp) and isinstance(expr.op, ast.Add):
-            sides = [expr.left, expr.right]
-            al = [x for x in sides if u(x) == "self._time_index_alignment"]
-            mul = [x for x in sides if isinstance(x, ast.BinOp) and isinstance(x.op, ast.Mult)
-                   and "self._sampling_period" in (u(x.left), u(x.right))]
-            ok = bool(al) and bool(mul)
-    run.check(ok, "C09.NORM", nt.qual, "return align_to + n * sampling_period",
+    ok, n_ret, wit = True, 0, None
+    for p in ordered_paths(prog, nt):
+        if p.exit != "return":
+            continue
+        n_ret += 1
+        r = p.ret
+        good = False
+        if isinstance(r, ast.BinOp) and isinstance(r.op, ast.Add):
+            for al, mul in ((r.left, r.right), (r.right, r.left)):
+                if u(al) == "self._time_index_alignment" and isinstance(mul, ast.BinOp) \
+                        and isinstance(mul.op, ast.Mult) and STEP in (u(mul.left), u(mul.right)):
+                    good = True
+        if not good:
+            ok, wit = False, p
+    run.check(ok and n_ret > 0, "C09.NORM", nt.qual, "return align_to + n * sampling_period",
               "normalize_timestamp does not return a point of the grid align_to + n*period",
-              node=nt.node, file=nt.file)
+              node=nt.node, file=nt.file, path=wit.describe() if wit is not None else None)
     if n_sinks < 12:
         raise AnalysisError(f"C09.NORM: only {n_sinks} alignment sinks found")
 
 
 # ---------------------------------------------------------------------------------------------
-def check_valid(run: Run, prog: Program) -> None:
-    # ---- update(): reject-before-mutate
+STATE = {"_timestamp_newest", "_timestamp_oldest", "_buffer", "_gaps"}
+OLDEST_F, NEWEST_F = "self._timestamp_oldest", "self._timestamp_newest"
+EMPTY_SENTINELS = (frozenset({OLDEST_F, "self._TIMESTAMP_MAX"}), frozenset({NEWEST_F, "self._TIMESTAMP_MIN"}))
+STEP = "self._sampling_period"
+
+
+def _ring(prog: Program) -> Any:
+    return prog.cls(f"{BUF}:OrderedRingBuffer")
+
+
+def _bound_args(prog: Program, call: ast.Call) -> dict[str, ast.AST]:
+    """Arguments of a call of an OrderedRingBuffer method keyed by parameter name (keyword == positional)."""
+    if not isinstance(call.func, ast.Attribute):
+        raise AnalysisError(f"cannot resolve call {u(call)[:80]}")
+    m = prog.resolve_method(_ring(prog), call.func.attr)
+    if m is None or any(isinstance(a, ast.Starred) for a in call.args) or any(k.arg is None for k in call.keywords):
+        raise AnalysisError(f"cannot bind the arguments of {u(call)[:80]}")
+    return positional(call, func_params(m.node))
+
+
+def _param(prog: Program, method: str, idx: int) -> str:
+    m = prog.resolve_method(_ring(prog), method)
+    if m is None:
+        raise AnalysisError(f"OrderedRingBuffer.{method} not found")
+    ps = func_params(m.node)
+    if idx >= len(ps):
+        raise AnalysisError(f"OrderedRingBuffer.{method}: parameter {idx} not found")
+    return ps[idx]
+
+
+def _is_index_error(p: Path) -> bool:
+    return p.exit == "raise" and p.ret is not None and "IndexError" in u(p.ret)
+
+
+def _mutations(p: Path, summ: MutationSummary) -> list[tuple[int, str, str, int]]:
+    """(position on the path, state attribute, text, line) of every write of the buffer state."""
+    out = []
+    for i, e in enumerate(p.effects):
+        if e.kind == "write":
+            tgt, val = e.node.elts  # type: ignore[attr-defined]
+            r = self_attr_root(tgt)
+            if r in STATE:
+                out.append((i, r, f"{u(tgt)} = {u(val)}", e.lineno))
+        elif e.kind == "del":
+            r = self_attr_root(e.node)
+            if r in STATE:
+                out.append((i, r, f"del {u(e.node)}", e.lineno))
+        elif e.kind == "call":
+            for r in sorted(summ.of_call(e.node) & STATE):  # type: ignore[arg-type]
+                out.append((i, r, u(e.node), e.lineno))
+    return out
+
+
+def _too_old_marks(p: Path) -> list[tuple[int, str, bool]]:
+    """(position, T, outcome) of every decided `T < self._timestamp_oldest` (in any spelling)."""
+    out = []
+    for i, e in enumerate(p.effects):
+        if e.kind != "cond":
+            continue
+        key, outcome = e.orig  # type: ignore[misc]
+        if isinstance(key, tuple) and len(key) == 3 and key[0] == "<" and key[2] == OLDEST_F:
+            out.append((i, key[1], outcome))
+        elif isinstance(key, tuple) and len(key) == 3 and key[0] == "<=" and key[1] == OLDEST_F:
+            out.append((i, key[2], not outcome))
+    return out
+
+
+def _empty_before(p: Path, before: int | None) -> bool:
+    """The path has established (before that position) that nothing was written yet (sentinel bounds)."""
+    return any(decided(p, ("==", s), before) is True for s in EMPTY_SENTINELS)
+
+
+def _through_normalize(prog: Program) -> Any:
+    """normalize_timestamp is monotone and fixes grid points: a bound by an aligned limit survives it."""
+    def through(c: ast.Call) -> ast.AST | None:
+        if method_call(c, "self", "normalize_timestamp"):
+            args = _bound_args(prog, c)
+            if len(args) == 1:
+                return next(iter(args.values()))
+        return None
+    return through
+
+
+def _index_arg(prog: Program, e: ast.AST | None, base: str, what: str) -> ast.AST:
+    """e == `<base>.to_internal_index(X)` -> X."""
+    if not (isinstance(e, ast.Call) and method_call(e, base, "to_internal_index")):
+        raise AnalysisError(f"{what}: cannot relate slot position `{u(e)[:80]}` to a datetime")
+    args = _bound_args(prog, e)
+    tparam = _param(prog, "to_internal_index", 0)
+    extra = {k: v for k, v in args.items() if k != tparam}
+    if tparam not in args or any(not (isinstance(v, ast.Constant) and v.value is False) for v in extra.values()):
+        raise AnalysisError(f"{what}: unexpected arguments in `{u(e)[:80]}`")
+    return args[tparam]
+
+
+def check_valid(run: Run, prog: Program) -> None:  # noqa: C901
+    check_valid_update(run, prog)
+    check_valid_window(run, prog)
+    check_valid_at(run, prog)
+
+
+def check_valid_update(run: Run, prog: Program) -> None:
+    """update(): reject-before-mutate, decided per symbolic path (helpers spliced in / summarised)."""
     up = prog.func(f"{BUF}:OrderedRingBuffer.update")
     run.analysed(up.qual)
-    cfg = CFG(up.node, up.file)
-    guards = [n for n in cfg.nodes if n.kind == "test" and n.ast is not None
-              and "_timestamp_oldest" in n.label and any(
-                  isinstance(x, ast.Compare) and isinstance(x.ops[0], (ast.Lt, ast.Gt, ast.LtE, ast.GtE))
-                  for x in ast.walk(n.ast))]
-    mutators = []
-    for n in cfg.nodes:
-        if n.ast is None or n.kind != "stmt":
+    summ = MutationSummary(prog, _ring(prog))
+    paths = ordered_paths(prog, up)
+    kinds: set[str] = set()
+    sites: dict[tuple[int, str], tuple[bool, Path]] = {}
+    rejecting: list[Path] = []
+    for p in paths:
+        marks = _too_old_marks(p)
+        muts = _mutations(p, summ)
+        kinds |= {r for _i, r, _t, _l in muts}
+        if any(o for _i, _t, o in marks) and not _empty_before(p, None):
+            # the timestamp is older than the oldest slot of a non-empty window: reject, touch nothing
+            rejecting.append(p)
+            ok = _is_index_error(p) and not muts
+            run.check(ok, "C09.VALID", up.qual, f"if {marks[0][1]} < self._timestamp_oldest [and written]: raise IndexError",
+                      "the too-old test does not lead to `raise IndexError` before any mutation",
+                      node=up.node, file=up.file, path=p.describe())
             continue
-        ws = [u(w) for w in node_writes(cfg, n.id)]
-        if any(w.startswith("self._timestamp_") or w.startswith("self._buffer[") or w == "self._gaps"
-               for w in ws) or node_has_call(cfg, n.id, lambda c: method_call(c, "self", "_update_gaps")):
-            mutators.append(n)
-    if len(mutators) < 4:
-        raise AnalysisError(f"{up.qual}: expected >=4 state-mutating statements, found {len(mutators)}")
-    ok = len(guards) == 1
-    if ok:
-        g = guards[0]
-        # true side must raise IndexError without mutating
-        t_side = cfg.reachable([m for m, lab in cfg.succ[g.id] if lab == "true"])
-        ok = cfg.exit not in t_side and not any(m.id in t_side for m in mutators) and any(
-            isinstance(cfg.nodes[x].ast, ast.Raise) and "IndexError" in u(cfg.nodes[x].ast)
-            for x in t_side)
-        run.check(ok, "C09.VALID", up.qual, g.ast,
-                  "the too-old test does not lead to `raise IndexError` before any mutation",
-                  node=g.ast, file=up.file)
-        # the compared timestamp is the normalised one
-        cmp_ok = any(
-            isinstance(x, ast.Compare) and isinstance(x.ops[0], ast.Lt)
-            and u(x.comparators[0]) == "self._timestamp_oldest" for x in ast.walk(g.ast)) or any(
-            isinstance(x, ast.Compare) and isinstance(x.ops[0], ast.Gt)
-            and u(x.left) == "self._timestamp_oldest" for x in ast.walk(g.ast))
-        run.check(cmp_ok, "C09.VALID", up.qual, "timestamp < self._timestamp_oldest",
-                  "update() does not reject exactly the timestamps older than the window "
-                  "(strict `<` against the oldest slot)", node=g.ast, file=up.file)
-        for m in mutators:
-            wit = cfg.path(cfg.entry, [m.id], avoid=[g.id])
-            run.check(wit is None, "C09.VALID", up.qual, m.ast,
-                      "state is mutated on a path that has not passed the too-old rejection test",
-                      node=m.ast, file=up.file, path=cfg.describe_path(wit),
-                      instance=f"{up.qual}: `{m.text(50)}` dominated by the too-old test")
-    else:
-        run.violation("C09.VALID", up.qual, "too-old rejection",
-                      f"expected one rejection test against self._timestamp_oldest, found {len(guards)}",
-                      node=up.node, file=up.file)
+        for i, _r, text, line in muts:
+            ok = any(pos < i and not o for pos, _t, o in marks) or _empty_before(p, i)
+            prev = sites.get((line, text))
+            if prev is None or (prev[0] and not ok):
+                sites[(line, text)] = (ok, p)
+    if not {"_timestamp_newest", "_timestamp_oldest", "_buffer", "_gaps"} <= kinds:
+        raise AnalysisError(f"{up.qual}: expected writes of both time bounds, the data and the gap list, "
+                            f"found {sorted(kinds)}")
+    run.check(bool(rejecting), "C09.VALID", up.qual, "timestamp < self._timestamp_oldest",
+              "update() does not reject exactly the timestamps older than the window "
+              "(strict `<` against the oldest slot): no rejection test against self._timestamp_oldest found",
+              node=up.node, file=up.file)
+    for (line, text), (ok, p) in sorted(sites.items()):
+        run.check(ok, "C09.VALID", up.qual, text,
+                  "state is mutated on a path that has not passed the too-old rejection test",
+                  node=ast.Pass(lineno=line), file=up.file, path=p.describe(),
+                  instance=f"{up.qual}: `{text[:50]}` dominated by the too-old test")
 
-    # ---- window(): clamp-before-index, empty guard, fill-before-return
+
+def check_valid_window(run: Run, prog: Program) -> None:  # noqa: C901
+    """window(): clamp-before-index, empty guard (on aligned operands), fill-before-return; per path."""
     wn = prog.func(f"{BUF}:OrderedRingBuffer.window")
     run.analysed(wn.qual)
-    cfg = CFG(wn.node, wn.file)
-    idx_nodes = nodes_with_call(cfg, lambda c: method_call(c, "self", "to_internal_index"))
-    if len(idx_nodes) < 2:
-        raise AnalysisError(f"{wn.qual}: to_internal_index call sites not found")
-    idx_vars = []
-    for x in idx_nodes:
-        for c in node_calls(cfg, x, lambda c: method_call(c, "self", "to_internal_index")):
-            if c.args and isinstance(c.args[0], ast.Name):
-                idx_vars.append((x, c.args[0].id))
-    wrap_nodes = nodes_with_call(cfg, lambda c: method_call(c, "self", "_wrapped_buffer_window"))
-    if not wrap_nodes:
+    paths = ordered_paths(prog, wn)
+    through = _through_normalize(prog)
+    p_start, p_end = _param(prog, "_wrapped_buffer_window", 1), _param(prog, "_wrapped_buffer_window", 2)
+    f_data, f_fill, f_origin, f_gaps = (_param(prog, "_fill_gaps", i) for i in range(4))
+    fv = "fill_value"
+    if fv not in wn.params:
+        raise AnalysisError(f"{wn.qual}: public parameter fill_value not found")
+    quals = Typestate(run, wn, set(), {p for _, p in _datetime_params(wn)}, scan=False)
+    env0 = {p: R for _, p in _datetime_params(wn)}
+    lower = {"self.oldest_timestamp"}
+    upper = {f"self.newest_timestamp + {STEP}"}
+    n = 0
+    for p in paths:
+        ws = p.calls(lambda c: method_call(c, None, "_wrapped_buffer_window"))
+        if not ws:
+            if p.calls(lambda c: method_call(c, "self", "to_internal_index")):
+                raise AnalysisError(f"{wn.qual}: slot positions computed on a path without a data fetch")
+            continue
+        if len(ws) != 1:
+            raise AnalysisError(f"{wn.qual}: {len(ws)} data fetches on one path")
+        n += 1
+        w = ws[0]
+        wpos = index_of(p, w)
+        a = _bound_args(prog, w.node)  # type: ignore[arg-type]
+        s_pos, e_pos = a.get(p_start), a.get(p_end)
+        xs, xe = _index_arg(prog, s_pos, "self", wn.qual), _index_arg(prog, e_pos, "self", wn.qual)
+        firsts = [first_call(p, u(s_pos)), first_call(p, u(e_pos))]
+        if None in firsts:
+            raise AnalysisError(f"{wn.qual}: slot-index computation not found on the path")
+        ipos = min(firsts)  # type: ignore[type-var]
+        where = dict(node=wn.node, file=wn.file, path=p.describe())
+        for x, fname, ok, word in (
+                (xs, "max", lower_bounded(p, xs, lower, ipos, through), "oldest stored slot"),
+                (xe, "min", upper_bounded(p, xe, upper, ipos, through), "slot after the newest")):
+            run.check(ok, "C09.VALID", wn.qual, f"{fname}(<query bound>, <{word}>)",
+                      f"the slot index of `{u(x)[:80]}` is computed without first clamping it to the "
+                      f"{word}: data outside the covered range (evicted/unwritten slots) is exposed",
+                      instance=f"{wn.qual}: clamp to the {word} dominates to_internal_index", **where)
+        run.check(entails_lt(p, xs, xe, ipos), "C09.VALID", wn.qual, "if start >= end: return empty",
+                  "slot positions are computed without the empty-range guard: equal positions make "
+                  "_wrapped_buffer_window return the whole buffer", **where)
+        for x in (xs, xe):
+            ql = quals.q(x, dict(env0))
+            run.check(ql == A, "C09.NORM", wn.qual, "start >= end",
+                      "the emptiness/ordering guard before the slot-index computation compares "
+                      "un-normalised datetimes: two times inside the same slot pass `start < end` "
+                      f"yet map to the same slot index, and the whole buffer is returned — qualifier: {ql}; "
+                      f"{u(x)[:100]}", instance=f"{wn.qual}: CMP operand {u(x)[:60]}", **where)
+        if p.exit != "return":
+            continue
+        ok = decided(p, ("is", frozenset({fv, "None"}))) is True
+        if not ok:
+            for f in p.calls(lambda c: method_call(c, "self", "_fill_gaps")):
+                if index_of(p, f) < wpos:
+                    continue
+                fa = _bound_args(prog, f.node)  # type: ignore[arg-type]
+                ok = u(fa.get(f_origin)) == u(xs) and u(fa.get(f_gaps)) in ("self.gaps", "self._gaps") \
+                    and u(w.node) in u(fa.get(f_data)) and u(fa.get(f_fill)) == fv \
+                    and p.ret is not None and u(p.ret) in (u(f.node), u(fa.get(f_data)))
+                if ok:
+                    break
+        run.check(ok, "C09.VALID", wn.qual, "if fill_value is not None: window = self._fill_gaps(window, "
+                  "fill_value, <clamped start>, self.gaps)",
+                  "a non-empty window can be returned without the gaps being filled from the clamped "
+                  "start although fill_value was given (stale/unwritten slot values leak)", **where)
+    if not n:
         raise AnalysisError(f"{wn.qual}: _wrapped_buffer_window call not found")
-    wcall = node_calls(cfg, wrap_nodes[0], lambda c: method_call(c, "self", "_wrapped_buffer_window"))[0]
-    pos_args = [u(a) for a in wcall.args[1:3]]
-    # map position variables back to the datetime variables
-    pos_src: dict[str, str] = {}
-    for x in idx_nodes:
-        s = cfg.nodes[x].ast
-        if isinstance(s, ast.Assign) and isinstance(s.value, ast.Call) and s.value.args \
-                and isinstance(s.value.args[0], ast.Name):
-            pos_src[u(s.targets[0])] = s.value.args[0].id
-    if len(pos_args) != 2 or not all(p in pos_src for p in pos_args):
-        raise AnalysisError(f"{wn.qual}: cannot relate slot positions {pos_args} to datetimes")
-    start_var, end_var = pos_src[pos_args[0]], pos_src[pos_args[1]]
-    lower_src = ("self.oldest_timestamp",)
-    upper_src = ("self.newest_timestamp + self._sampling_period",
-                 "self._sampling_period + self.newest_timestamp")
 
-    def clamp_nodes(var: str, fn_name: str, limits: tuple[str, ...]) -> list[int]:
-        out = []
-        for n in cfg.nodes:
-            s = n.ast
-            if n.kind == "stmt" and isinstance(s, ast.Assign) and u(s.targets[0]) == var:
-                for c in find_calls(s.value, lambda c: u(c.func) == fn_name and len(c.args) == 2):
-                    args = {u(a) for a in c.args}
-                    if var in args and args & set(limits):
-                        out.append(n.id)
-        return out
 
-    for var, fname, limits, word in ((start_var, "max", lower_src, "oldest stored slot"),
-                                     (end_var, "min", upper_src, "slot after the newest")):
-        cl = clamp_nodes(var, fname, limits)
-        uses = [x for x, v in idx_vars if v == var]
-        ok = bool(cl)
-        wit = None
-        for use in uses:
-            wit = cfg.path(cfg.entry, [use], avoid=cl)
-            if wit is not None:
-                ok = False
-                break
-            # no re-assignment between the clamp and the use that drops the clamp
-            for n in cfg.nodes:
-                if n.kind == "stmt" and n.id not in cl and any(
-                        u(w) == var for w in node_writes(cfg, n.id)):
-                    if any(cfg.path(c, [n.id]) and cfg.path(n.id, [use]) for c in cl):
-                        ok = False
-                        wit = cfg.path(n.id, [use])
-        run.check(ok, "C09.VALID", wn.qual, f"{var} = {fname}({var}, <{word}>)",
-                  f"the slot index of `{var}` is computed without first clamping it to the "
-                  f"{word}: data outside the covered range (evicted/unwritten slots) is exposed",
-                  node=wn.node, file=wn.file, path=cfg.describe_path(wit),
-                  instance=f"{wn.qual}: clamp of {var} dominates to_internal_index({var})")
-    # emptiness guard
-    eg = [n for n in cfg.nodes if n.kind == "test" and n.ast is not None
-          and canon_total(n.ast) in (("<=", end_var, start_var),)]
-    ok = len(eg) == 1
-    wit = None
-    if ok:
-        g = eg[0]
-        t_side = cfg.reachable([m for m, lab in cfg.succ[g.id] if lab == "true"])
-        ok = not any(x in t_side for x in idx_nodes)
-        for x in idx_nodes:
-            wit = cfg.path(cfg.entry, [x], avoid=[g.id])
-            if wit is not None:
-                ok = False
-                break
-    run.check(ok, "C09.VALID", wn.qual, f"if {start_var} >= {end_var}: return empty",
-              "slot positions are computed without the empty-range guard: equal positions make "
-              "_wrapped_buffer_window return the whole buffer", node=wn.node, file=wn.file,
-              path=cfg.describe_path(wit))
-    # fill-before-return
-    fills = nodes_with_call(cfg, lambda c: method_call(c, "self", "_fill_gaps"))
-    ftests = [n for n in cfg.nodes if n.kind == "test" and n.ast is not None and canon_total(n.ast) in (
-        ("isnot", frozenset({"fill_value", "None"})), ("is", frozenset({"fill_value", "None"})))]
-    ok = bool(fills) and bool(ftests)
-    wit = None
-    if ok:
-        # the test that governs the fill after the data was fetched
-        post = [t for t in ftests if any(t.id in cfg.reachable([w]) for w in wrap_nodes)]
-        ok = len(post) == 1
-        if ok:
-            t = post[0]
-            want = "true" if canon_total(t.ast)[0] == "isnot" else "false"  # type: ignore[arg-type]
-            side = [m for m, lab in cfg.succ[t.id] if lab == want]
-            wit = None if side and side[0] in fills else (
-                cfg.path(side[0], [cfg.exit], avoid=fills) if side else None)
-            ok = bool(side) and wit is None
-            # every path from the data fetch to a normal exit passes that test
-            if ok:
-                wit = cfg.path(wrap_nodes[0], [cfg.exit], avoid=[t.id],
-                               edge_ok=lambda a, b, lab: not lab.startswith("exc:"))
-                ok = wit is None
-            # the fill uses the clamped start as its time origin
-            if ok:
-                fc = node_calls(cfg, fills[0], lambda c: method_call(c, "self", "_fill_gaps"))[0]
-                ok = len(fc.args) >= 4 and u(fc.args[2]) == start_var and u(fc.args[3]) in (
-                    "self.gaps", "self._gaps")
-                if not ok:
-                    wit = None
-    run.check(ok, "C09.VALID", wn.qual, "if fill_value is not None: window = self._fill_gaps(window, "
-              f"fill_value, {start_var}, self.gaps)",
-              "a non-empty window can be returned without the gaps being filled from the clamped "
-              "start although fill_value was given (stale/unwritten slot values leak)",
-              node=wn.node, file=wn.file, path=cfg.describe_path(wit))
+def _nonzero(p: Path, n: str) -> bool:
+    tests = [(("truthy", n), True), (("<", "0", n), True), (("<=", "1", n), True),
+             (("==", frozenset({n, "0"})), False), (("<=", n, "0"), False), (("<", n, "1"), False)]
+    return any(decided(p, key) is pol for key, pol in tests)
 
-    # ---- MovingWindow.at: two-sided range guard before every raw buffer read
+
+def check_valid_at(run: Run, prog: Program) -> None:  # noqa: C901
+    """MovingWindow.at: every buffer read is range-checked on both sides, exactly against the covered range."""
     at = prog.func(f"{MW}:MovingWindow.at")
     run.analysed(at.qual)
-    cfg = CFG(at.node, at.file)
-    reads = []
-    for n in cfg.nodes:
-        if n.kind != "stmt" or n.ast is None:
-            continue
-        for x in walk_no_nested(n.ast):
-            if isinstance(x, ast.Subscript) and u(x.value) == "self._buffer" \
-                    and isinstance(x.ctx, ast.Load):
-                reads.append((n, x))
-    if len(reads) < 2:
-        raise AnalysisError(f"{at.qual}: expected a buffer read per key kind, found {len(reads)}")
-    param = at.params[1]
-    for n, sub in reads:
-        # candidate position variables: the key itself and locals derived from it
-        derived = {param}
-        for s in body_walk(at.node):
-            if isinstance(s, ast.Assign) and isinstance(s.targets[0], ast.Name) and any(
-                    isinstance(x, ast.Name) and x.id in derived for x in ast.walk(s.value)):
-                derived.add(s.targets[0].id)
-        guards = []
-        for t in cfg.nodes:
-            if t.kind != "test" or t.ast is None:
-                continue
-            if not _two_sided(t.ast, derived):
-                continue
-            if not _exact_range_guard(at, t.ast):
-                continue
-            t_side = cfg.reachable([m for m, lab in cfg.succ[t.id] if lab == "true"])
-            if cfg.exit in t_side or n.id in t_side:
-                continue
-            if not any(isinstance(cfg.nodes[x].ast, ast.Raise) and "IndexError" in u(cfg.nodes[x].ast)
-                       for x in t_side):
-                continue
-            guards.append(t.id)
-        wit = cfg.path(cfg.entry, [n.id], avoid=guards)
-        run.check(bool(guards) and wit is None, "C09.VALID", at.qual, n.ast,
-                  "the buffer is read at a position derived from the key without a two-sided range "
-                  "check against the covered range (IndexError on both ends): out-of-range indices "
-                  "return unwritten or wrapped-around slots", node=n.ast, file=at.file,
-                  path=cfg.describe_path(wit),
-                  instance=f"{at.qual}: read `{n.text(60)}` dominated by a two-sided range guard")
-    # the emptiness test comes first
-    empties = [t for t in cfg.nodes if t.kind == "test" and "count_valid() == 0" in t.label]
-    ok = bool(empties) and all(cfg.path(cfg.entry, [n.id], avoid=[e.id for e in empties]) is None
-                               for n, _ in reads)
-    run.check(ok, "C09.VALID", at.qual, "if self._buffer.count_valid() == 0: raise IndexError",
-              "a read is possible on an empty buffer", node=at.node, file=at.file)
+    paths = ordered_paths(prog, at)
+    buf = "self._buffer"
+    oldest, newest = f"{buf}.oldest_timestamp", f"{buf}.newest_timestamp"
+    covered = (f"{buf}.count_covered()", "self.count_covered()", "len(self)")
+    forms: set[str] = set()
+    positions: dict[str, set[str]] = {"datetime": set(), "index": set()}
+
+    def in_range(p: Path, kind: str, k: ast.AST) -> tuple[bool, bool]:
+        if kind == "datetime":
+            return entails_le(p, oldest, k), entails_le(p, k, newest)
+        return (any(entails_le(p, f"-{c}", k) for c in covered),
+                any(entails_lt(p, k, c) for c in covered))
+
+    def out_of_range(p: Path, kind: str, k: str) -> bool:
+        if kind == "datetime":
+            return entails_lt(p, k, oldest) or entails_lt(p, newest, k)
+        return any(entails_lt(p, k, f"-{c}") or (c != k and entails_le(p, c, k) and not entails_le(p, k, c))
+                   for c in covered)
+
+    for p in paths:
+        exprs = [p.ret] + [e.node for e in p.effects if e.kind in ("call", "write")]
+        seen: set[str] = set()
+        for x in exprs:
+            for sub in subscripts_of(x, buf):
+                if u(sub) in seen:
+                    continue
+                seen.add(u(sub))
+                k = _index_arg(prog, sub.slice, buf, at.qual)
+                kind = "datetime"
+                if isinstance(k, ast.Call) and method_call(k, buf, "get_timestamp"):
+                    ga = _bound_args(prog, k)
+                    if len(ga) != 1:
+                        raise AnalysisError(f"{at.qual}: cannot bind {u(k)}")
+                    k, kind = next(iter(ga.values())), "index"
+                forms.add(kind)
+                positions[kind].add(u(k))
+                lo, hi = in_range(p, kind, k)
+                run.check(lo and hi, "C09.VALID", at.qual, f"return {u(sub)}",
+                          "the buffer is read at a position derived from the key without a two-sided range "
+                          "check against the covered range (IndexError on both ends): out-of-range indices "
+                          "return unwritten or wrapped-around slots"
+                          + ("" if lo else " — lower side not established")
+                          + ("" if hi else " — upper side not established"),
+                          node=at.node, file=at.file, path=p.describe(),
+                          instance=f"{at.qual}: read `{u(sub)[:60]}` dominated by a two-sided range guard")
+                run.check(_nonzero(p, f"{buf}.count_valid()"), "C09.VALID", at.qual,
+                          "if self._buffer.count_valid() == 0: raise IndexError",
+                          "a read is possible on an empty buffer", node=at.node, file=at.file, path=p.describe())
+    if forms != {"datetime", "index"}:
+        raise AnalysisError(f"{at.qual}: expected a buffer read per key kind, found {sorted(forms)}")
+    # a position found out of range is rejected with IndexError
+    n = 0
+    for p in paths:
+        for kind, ks in positions.items():
+            for k in sorted(ks):
+                if out_of_range(p, kind, k):
+                    n += 1
+                    run.check(_is_index_error(p), "C09.VALID", at.qual, f"{k} out of range: raise IndexError",
+                              "a position outside the covered range is not rejected with IndexError",
+                              node=at.node, file=at.file, path=p.describe())
+    if n < 4:
+        raise AnalysisError(f"{at.qual}: only {n} rejecting paths found for the two key kinds")
 
 
-def _exact_range_guard(at: FuncInfo, test: ast.AST) -> bool:
-    """The guard must reject exactly what lies outside the covered range: for a datetime key
-    `key < oldest_timestamp or key > newest_timestamp`, for an index `key < -covered or key >= covered`
-    (covered = the buffer's count_covered()).  Anything weaker lets a position through that
-    normalises/wraps onto another slot."""
-    key = at.params[1]
-    c = canon_total(test)
-    dt_form = ("or", frozenset({("<", key, "self._buffer.oldest_timestamp"),
-                                ("<", "self._buffer.newest_timestamp", key)}))
-    if c == dt_form:
-        return True
-    if isinstance(c, tuple) and c[0] == "or" and len(c[1]) == 2:
-        # index form: resolve the local holding the covered count
-        locs = {u(s.targets[0]): u(s.value) for s in body_walk(at.node)
-                if isinstance(s, ast.Assign) and isinstance(s.targets[0], ast.Name)}
-        for name, val in locs.items():
-            if val.replace(" ", "") in ("self._buffer.count_covered()", "self.count_covered()", "len(self)"):
-                if c == ("or", frozenset({("<", key, f"-{name}"), ("<=", name, key)})):
-                    return True
-    return False
+def _gap_args(c: ast.Call) -> dict[str, ast.AST]:
+    return positional(c, ["start", "end"])
 
 
-def _two_sided(test: ast.AST, names: set[str]) -> bool:
-    """Does the test reject both `K < lower` and `K > upper` for some K in names?"""
-    low = high = False
-    for x in ast.walk(test):
-        if isinstance(x, ast.Compare) and len(x.ops) == 1:
-            l, r = x.left, x.comparators[0]
-            op = x.ops[0]
-            lk = isinstance(l, ast.Name) and l.id in names
-            rk = isinstance(r, ast.Name) and r.id in names
-            if lk and not rk:
-                if isinstance(op, (ast.Lt, ast.LtE)):
-                    low = True
-                if isinstance(op, (ast.Gt, ast.GtE)):
-                    high = True
-            if rk and not lk:
-                if isinstance(op, (ast.Gt, ast.GtE)):
-                    low = True
-                if isinstance(op, (ast.Lt, ast.LtE)):
-                    high = True
-        if isinstance(x, ast.Compare) and len(x.ops) == 2:
-            mid = x.comparators[0]
-            if isinstance(mid, ast.Name) and mid.id in names:
-                # `not (lo <= K < hi)` form
-                low = high = True
-    if not (low and high):
-        return False
-    # must be a disjunction (either side rejects), or a negated conjunction
-    c = canon_total(test)
-    return isinstance(c, tuple) and c[0] == "or"
-
-
-def check_gaps(run: Run, prog: Program) -> None:
+def check_gaps(run: Run, prog: Program) -> None:  # noqa: C901
     """C09.GAP: forward jumps mark every skipped slot; gap filling writes only inside the window."""
     fn = prog.func(f"{BUF}:OrderedRingBuffer._update_gaps")
     run.analysed(fn.qual)
-    cfg = CFG(fn.node, fn.file)
-    ts, newest = fn.params[1], fn.params[2]
-    first_unwritten = {f"{newest}+self._sampling_period", f"self._sampling_period+{newest}"}
-    allowed = first_unwritten | {f"min({newest}+self._sampling_period,{ts})", f"min({ts},{newest}+self._sampling_period)",
-                                 "self._timestamp_oldest"}
-    defs = {u(s.targets[0]): s.value for s in body_walk(fn.node)
-            if isinstance(s, ast.Assign) and isinstance(s.targets[0], ast.Name)}
-    n = 0
-    for node in cfg.nodes:
-        if node.kind != "stmt" or node.ast is None:
-            continue
-        for c in find_calls(node.ast, lambda c: u(c.func) == "Gap"):
-            n += 1
-            kws = {k.arg: k.value for k in c.keywords}
-            start = kws.get("start") or (c.args[0] if c.args else None)
+    ts, newest, rec = fn.params[1], fn.params[2], fn.params[3]
+    first_unwritten = f"{newest} + {STEP}"
+    paths = ordered_paths(prog, fn)
+    gap_sites: set[int] = set()
+    missing_recorded = 0
+    for p in paths:
+        gaps = p.calls(lambda c: u(c.func) == "Gap")
+        for g in gaps:
+            gap_sites.add(g.lineno)
+            start = _gap_args(g.node).get("start")  # type: ignore[arg-type]
             if start is None:
                 raise AnalysisError(f"{fn.qual}: Gap(...) without start")
-            sv = defs.get(u(start), start) if isinstance(start, ast.Name) else start
-            text = u(sv).replace(" ", "")
-            ok = text in allowed
-            if not ok and text == ts:
-                # allowed when a dominating test establishes ts <= newest + period (no slot is skipped)
-                for t in cfg.nodes:
-                    if t.kind == "test" and t.ast is not None:
-                        ct = canon_total(t.ast)
-                        lim = f"{newest} + self._sampling_period"
-                        if ct == ("<", lim, ts) and cfg.path(cfg.entry, [node.id], avoid=[t.id]) is None and \
-                                node.id not in cfg.reachable([m for m, lab in cfg.succ[t.id] if lab == "true"]):
-                            ok = True
-            run.check(ok, "C09.GAP", fn.qual, c,
-                      f"a gap recorded by update() starts at `{u(sv)}`: when the new sample jumps ahead of "
+            ok = upper_bounded(p, start, {first_unwritten, OLDEST_F}, index_of(p, g))
+            run.check(ok, "C09.GAP", fn.qual, g.node,
+                      f"a gap recorded by update() starts at `{u(start)}`: when the new sample jumps ahead of "
                       f"`{newest} + period`, the skipped (never written) slots before it are not marked as "
-                      "missing, so count_valid/gaps/window() treat evicted data as valid", node=c, file=fn.file,
-                      instance=f"{fn.qual}: {u(c)[:60]} starts no later than the first unwritten slot")
-    if n < 3:
-        raise AnalysisError(f"{fn.qual}: only {n} Gap constructions found")
-    # every non-returning path of a *missing* sample that is not already inside a gap records one
-    # (structure of the branch on record_as_missing): the missing branch must construct a Gap
-    miss = [t for t in cfg.nodes if t.kind == "test" and t.ast is not None and u(t.ast) == fn.params[3]]
-    ok = bool(miss) and all(any(find_calls(cfg.nodes[x].ast, lambda c: u(c.func) == "Gap")
-                                for x in cfg.reachable([m for m, lab in cfg.succ[t.id] if lab == "true"])
-                                if cfg.nodes[x].ast is not None and cfg.nodes[x].kind == "stmt") for t in miss)
-    run.check(ok, "C09.GAP", fn.qual, "missing sample -> gap recorded", "a missing (None/NaN) sample is not "
-              "recorded as a gap", node=fn.node, file=fn.file)
+                      "missing, so count_valid/gaps/window() treat evicted data as valid",
+                      node=ast.Pass(lineno=g.lineno), file=fn.file, path=p.describe(),
+                      instance=f"{fn.qual}: {u(g.node)[:60]} starts no later than the first unwritten slot")
+        # a missing sample that is not inside a gap yet is recorded as one
+        if decided(p, ("truthy", rec)) is True and p.exit != "raise":
+            known = decided(p, ("truthy", f"self.is_missing({ts})"))
+            if gaps:
+                missing_recorded += 1
+            if known is False:
+                run.check(bool(gaps), "C09.GAP", fn.qual, "missing sample -> gap recorded",
+                          "a missing (None/NaN) sample is not recorded as a gap", node=fn.node, file=fn.file,
+                          path=p.describe())
+    if len(gap_sites) < 3:
+        raise AnalysisError(f"{fn.qual}: only {len(gap_sites)} Gap constructions found")
+    run.check(missing_recorded > 0, "C09.GAP", fn.qual, "missing sample -> gap recorded",
+              "a missing (None/NaN) sample is not recorded as a gap", node=fn.node, file=fn.file)
     # _fill_gaps writes only inside [0, len(data)]
     fg = prog.func(f"{BUF}:OrderedRingBuffer._fill_gaps")
     run.analysed(fg.qual)
     data = fg.params[1]
-    stores = [s for s in body_walk(fg.node) if isinstance(s, ast.Assign) and isinstance(s.targets[0], ast.Subscript)
-              and u(s.targets[0].value) == data and isinstance(s.targets[0].slice, ast.Slice)]
-    if len(stores) < 2:
+    fpaths = ordered_paths(prog, fg)
+    fpaths = fpaths + loop_paths(fpaths, fg.qual)
+    stores: set[int] = set()
+    for p in fpaths:
+        for i, e in enumerate(p.effects):
+            if e.kind != "write":
+                continue
+            tgt, val = e.node.elts  # type: ignore[attr-defined]
+            if not (isinstance(tgt, ast.Subscript) and u(tgt.value) == data):
+                continue
+            if not isinstance(tgt.slice, ast.Slice) or tgt.slice.step is not None:
+                raise AnalysisError(f"{fg.qual}: write `{u(tgt)}` into the window is not a plain slice store")
+            stores.add(e.lineno)
+            lo, hi = tgt.slice.lower, tgt.slice.upper
+            lo_ok = lo is None or lower_bounded(p, lo, {"0"}, i)
+            hi_ok = hi is None or upper_bounded(p, hi, {f"len({data})"}, i)
+            run.check(lo_ok and hi_ok, "C09.GAP", fg.qual, f"{data}[{u(lo)[:40]}:{u(hi)[:40]}] = {u(val)}",
+                      f"the fill writes `{u(tgt)[:160]}` without both indices clamped into [0, len({data})]: "
+                      "a slice assignment past the end of a list *extends* it, so a window query returns more "
+                      "slots than it spans (and list/numpy containers disagree)",
+                      node=ast.Pass(lineno=e.lineno), file=fg.file, path=p.describe())
+    if not stores:
         raise AnalysisError(f"{fg.qual}: slice assignments into the window not found")
-    assigns = [s for s in body_walk(fg.node) if isinstance(s, ast.Assign) and isinstance(s.targets[0], ast.Name)]
-    for st in stores:
-        sl = st.targets[0].slice  # type: ignore[union-attr]
-        lo, hi = u(sl.lower), u(sl.upper)
-        lo_ok = any(u(a.targets[0]) == lo and u(a.value).replace(" ", "") in (f"max({lo},0)", f"max(0,{lo})") for a in assigns)
-        hi_ok = any(u(a.targets[0]) == hi and u(a.value).replace(" ", "") in (f"min({hi},len({data}))", f"min(len({data}),{hi})")
-                    for a in assigns)
-        # the clamp is the last definition before the store
-        def last_def(name: str) -> str:
-            d = [a for a in assigns if u(a.targets[0]) == name and a.lineno < st.lineno]
-            return u(d[-1].value).replace(" ", "") if d else ""
-        lo_ok = lo_ok and last_def(lo) in (f"max({lo},0)", f"max(0,{lo})")
-        hi_ok = hi_ok and last_def(hi) in (f"min({hi},len({data}))", f"min(len({data}),{hi})")
-        run.check(lo_ok and hi_ok, "C09.GAP", fg.qual, st,
-                  f"the fill writes `{data}[{lo}:{hi}]` without both indices clamped into [0, len({data})]: "
-                  "a slice assignment past the end of a list *extends* it, so a window query returns more "
-                  "slots than it spans (and list/numpy containers disagree)", node=st, file=fg.file)
 
 
 def check_idx(run: Run, prog: Program) -> None:
